@@ -194,6 +194,11 @@ def main(argv=None) -> int:
             k = match_known(known, prop, "obligation", base_name(o["name"]))
             if k is not None:
                 known_lines.append((k, o))
+            elif o.get("soft") and not [f for f in bounded.get("failures", []) if match_known(known, prop, "bounded", f["key"]) is None]:
+                # a design rule (no hidden state, inputs left alone) no longer holds syntactically: what was proved under it is void,
+                # but nothing shows the property itself broken (a correctly invalidated cache is legitimate) -> undecided
+                o["detail"] = (o.get("detail", "") + " | design rule refuted and no native witness from the bounded layer: undecided, not a violation").strip()
+                undecided.append(o)
             elif not baseline or base_name(o["name"]) in baseline or o.get("replay") or _has_witness(o, bounded):
                 violations.append(o)
             else:
